@@ -361,7 +361,8 @@ def _run_version(shard, acc):
                 _emit(acc, {'kind': 'negative', 'on': 'segment', 'v': v, 's': s, 'fname': first[0], 'fill': fill, 'bad': bad, 'why': why}, True)
             vrow = rows[-1]
             for bad, why in (('VARIES_0', 'varies-index-zero'), ('VARIES_02', 'varies-index-with-leading-zero'), ('%s_0' % vrow[0], 'component-index-zero'),
-                             ('VARIES_+1', 'varies-index-with-sign')):
+                             ('VARIES_+1', 'varies-index-with-sign'), ('%s_1_1' % vrow[0], 'subcomponent-path-on-varies'),
+                             ('%s_3_2' % vrow[0], 'subcomponent-path-on-varies')):
                 _emit(acc, {'kind': 'negative', 'on': 'field', 'v': v, 's': s, 'fname': vrow[0], 'fill': 'a^b', 'bad': bad, 'why': why}, True)
             continue
         other = allsegs[(allsegs.index(s) + 1 + rnd.randrange(len(allsegs) - 1)) % len(allsegs)]
